@@ -352,7 +352,11 @@ func SchemaLines(n *SNode, isRoot bool) []string {
 			}
 			out = append(out, pad+prefix+"{"+ruleText(n))
 			for i, p := range n.Props {
-				rec(p.Node, "\""+p.Key+"\": ", ind+1, i < len(n.Props)-1)
+				if p.KeyRef {
+					rec(p.Node, p.Key+" : ", ind+1, i < len(n.Props)-1)
+				} else {
+					rec(p.Node, "\""+p.Key+"\": ", ind+1, i < len(n.Props)-1)
+				}
 			}
 			out = append(out, pad+"}"+c)
 		case "array":
